@@ -68,6 +68,34 @@ CLAIMED = {
         technique="TLA+ transcription of A* checked by TLC on all small DAGs; TLC trace validation of best path, N-best and "
                   "posteriors of dumped real lattices",
         design="4/C12"),
+    "C06": dict(
+        text="TLC proves that the transcription of fe_process's overflow mechanism (overflow_append, read_overflow_frame, the "
+             "shift loop, create_overflow_frame with its read behind the caller's pointer, append_overflow_frame, fe_end; two "
+             "caller protocols) refines the frame-stream specification for 10 (Size,Shift) pairs, all chunk lengths to "
+             "2*Size+Shift+1, output limits 0..3 and streams to 4*Size; chunk schedules generated by tlc -simulate on the same "
+             "model with the REAL constants of each front-end configuration are executed on a real fe_t for three signals in "
+             "int16 and float32, and TLC validates every recorded call against FrameStream: frames bit-identical to the "
+             "one-call reference, NF(N) frames, every sample consumed once.",
+        note="Bit-identity is relative to the same build (a change that alters all chunkings identically is invisible); float "
+             "input is exactly int16/32768, dither off, one encoding per utterance; the caller re-submits handed-back samples "
+             "and gives fe_end room for one frame. Trusted: TLC, ASan, harness/fe/fe_drv.c's memcmp. Three genuine defects "
+             "were found and repaired (fix: c48a241, 64f3f4f, d54de6a).",
+        technique="TLA+ refinement (FeChunkImpl => FrameStream) checked by TLC; model-generated chunk schedules replayed on the "
+                  "real front end; TLC trace validation",
+        design="4/C06"),
+    "C14": dict(
+        text="The JSON line of every result in the decode matrix (partial/final/empty, levels 0-2, offsets, frame rates 50/100/"
+             "200, hostile dictionary spellings) is parsed by TLC with an RFC 8259 acceptor written in TLA+ (JsonSyntax) and "
+             "compared field by field (text, start, duration, probability, nested word/phone/state lists, in integer "
+             "thousandths) with what decoder_hyp, decoder_seg_iter and decoder_alignment report for the same result; its "
+             "length is compared with the allocation. JsonSizeImpl model-checks the two-pass count/write bookkeeping for every "
+             "result shape.",
+        note="Trusted: TLC; recorder (view taken through the public iterators right after the JSON call; allocation size via a "
+             "linker wrap of __ckd_calloc__); tolerance one thousandth for %.3f rounding; UTF-8 validity of spellings not "
+             "demanded. Two genuine defects found and repaired (fix: 5428a9f escaping, 8b2df5f zero-word alignment).",
+        technique="JSON acceptor and result comparison specified in TLA+, evaluated by TLC on recorded real outputs; TLA+ model "
+                  "of the size bookkeeping checked exhaustively",
+        design="4/C14"),
 }
 
 PENDING = "not built yet in this round (planned, see DESIGN.md section 4); no check is registered, so nothing is claimed"
